@@ -54,6 +54,10 @@ def gen_history(rng, n):
                 extra.insert(0, ["d"])
         elif r < 0.4:
             extra = [["t", "x"]]
+        elif r < 0.47:
+            # a tag the SQL backend's tag indexing chokes on (IndexError on the bare "expiration"): the newer version is
+            # refused *after* the older ones were looked at — they must still be there
+            extra = [rng.choice([["expiration"], ["expiration"], ["delegation"]])]
         evs.append(mk(rng, i, focus_author if rng.random() < 0.8 else rng.choice(AUTH), kind, d,
                       T0 + rng.choice([0, 1, 2, 3, 3]), extra))
     if rng.random() < 0.3 and evs:
@@ -196,7 +200,8 @@ def run(report, tier, seed):
     stores = [KVStore(), SQLStore()]
     report.coverage["rule"] = (
         "histories of 2-7 events over 2 authors x kinds {0,3,1,10002,30000,30001} x d in {absent, bare, '', a, ab, abc, "
-        "b, é} (+ second d tags) x 5 timestamps incl. equal ones, random arrival order, resubmissions; both backends; "
+        "b, é} (+ second d tags) x 5 timestamps incl. equal ones, random arrival order, resubmissions, versions that the backend "
+        "refuses late (a bare expiration tag makes the SQL tag indexing raise after pre_save); both backends; "
         "after every event: correspondence of the stored set with the Lean model and the three clauses of C09 on the real "
         "store; non-trivial = the history contains a replaceable kind")
     report.assumptions += ["validators disabled (synthetic unsigned events); admission is C03/C06/C16's business"]
